@@ -61,6 +61,14 @@ func discoverTreeCase(t *l1sync.Tool, base string, r *gen.Rand, i int) gen.Case 
 		name := gen.Pick(r, []string{"r0", "r1", "r2", "root.git", "r0/team", "r1/deep"})
 		d := filepath.Join(top, name)
 		if err := os.MkdirAll(d, 0o755); err != nil {
+			continue // a file or fifo of an earlier root is in the way
+		}
+		makeTree(r, d, 0)
+		rootDirs = append(rootDirs, d)
+	}
+	if len(rootDirs) == 0 {
+		d := filepath.Join(top, "rx")
+		if err := os.MkdirAll(d, 0o755); err != nil {
 			panic(err)
 		}
 		makeTree(r, d, 0)
